@@ -82,6 +82,6 @@ CHolds(c) == IF c \in Clauses THEN Holds(c)
 CStep == /\ CNext
          /\ LET nb == {c \in CClauses : ~(CHolds(c))'} IN
               /\ bad' = bad \cup {<<l, c>> : c \in nb}
-              /\ (nb = {} \/ Cardinality(bad) > 40 \/ PrintT(<<"VERIF_BAD", l, nb>>))
+              /\ (nb = {} \/ Cardinality(bad) > 2000 \/ PrintT(<<"VERIF_BAD", l, nb>>))
 CSpec == TInit /\ [][CStep]_tvars
 =============================================================================
